@@ -58,3 +58,9 @@ fn witness_pool_drop_aliasing() {
     pool.scope(|s| s.spawn(|_| {}));
     drop(pool);
 }
+
+#[test]
+fn cvec_logical_exclusion() {
+    let r = shared::cvec_exclusion_scenario(2, 5);
+    assert!(r.is_ok(), "{r:?}");
+}
